@@ -120,9 +120,11 @@ def _prune_cache(prefix, keep=3):
         shutil.rmtree(p, ignore_errors=True)
 
 
-def facts_dir(root=None, workspace=True, prefix="repo-"):
+def facts_dir(root=None, workspace=True, prefix=None):
     """Return a directory holding <crate>.json.gz for the tree at root (extracting if needed)."""
     root = root or REPO
+    if prefix is None:
+        prefix = "repo-" if os.path.realpath(root) == "/repo" else "scratch-"
     ensure_driver()
     key = tree_key(root)
     d = os.path.join(CACHE, prefix + key)
@@ -153,7 +155,7 @@ def facts_dir(root=None, workspace=True, prefix="repo-"):
                 fh.write("%.1f\n" % (time.time() - t0))
         finally:
             shutil.rmtree(tmp, ignore_errors=True)
-        _prune_cache(prefix)
+        _prune_cache(prefix, keep=3 if prefix == "repo-" else 10)
     return d
 
 
